@@ -13,6 +13,8 @@ package lua
 
 //@ define Inv_reg(rg *registry) bool = rg != nil && 0 <= rg.top && rg.top <= len(rg.array) && len(rg.array) == cap(rg.array) && offset(rg.array) == 0 && rg.handler != nil
 
+//@ define arrSameOrFresh(rg *registry) bool = arrid(rg.array) == old(arrid(rg.array)) || fresh(rg.array)
+
 //@ iface registryHandler.registryOverflow [C01 C10 C12]
 //@ noreturn
 
@@ -37,6 +39,7 @@ package lua
 //@ raises when requiredSize > cap(rg.array) && ite(requiredSize + rg.growBy > rg.maxSize, rg.maxSize, requiredSize + rg.growBy) < requiredSize
 //@ ensures  Inv_reg(rg) && cap(rg.array) >= requiredSize && rg.top == old(rg.top)
 //@ ensures  forall k int :: 0 <= k && k < rg.top ==> rg.array[k] == old(rg.array[k])
+//@ ensures  arrSameOrFresh(rg)
 //@ modifies rg.array
 
 //@ define overflow(rg *registry, n int) bool = n > cap(rg.array) && ite(n + rg.growBy > rg.maxSize, rg.maxSize, n + rg.growBy) < n
@@ -47,6 +50,7 @@ package lua
 //@ ensures  Inv_reg(rg) && rg.top == topi
 //@ ensures  forall k int :: 0 <= k && k < topi && k < old(rg.top) ==> rg.array[k] == old(rg.array[k])
 //@ ensures  forall k int :: old(rg.top) <= k && k < topi ==> rg.array[k] == LNil
+//@ ensures  arrSameOrFresh(rg)
 //@ modifies rg.array, rg.top, rg.array[*]
 //@ loop 1 invariant oldtopi <= i && Inv_reg(rg) && rg.top == topi && oldtopi == old(rg.top)
 //@ loop 1 invariant forall k int :: 0 <= k && k < old(rg.top) && k < topi ==> rg.array[k] == old(rg.array[k])
@@ -59,6 +63,7 @@ package lua
 //@ raises when overflow(rg, rg.top + 1)
 //@ ensures  Inv_reg(rg) && rg.top == old(rg.top) + 1 && rg.array[old(rg.top)] == v
 //@ ensures  forall k int :: 0 <= k && k < old(rg.top) ==> rg.array[k] == old(rg.array[k])
+//@ ensures  arrSameOrFresh(rg)
 //@ modifies rg.array, rg.top, rg.array[*]
 
 //@ func (*registry).Pop [C01 C10 C12]
@@ -73,6 +78,7 @@ package lua
 //@ raises when overflow(rg, regi + 1)
 //@ ensures  Inv_reg(rg) && rg.array[regi] == vali && rg.top == ite(regi >= old(rg.top), regi+1, old(rg.top))
 //@ ensures  forall k int :: 0 <= k && k < old(rg.top) && k != regi ==> rg.array[k] == old(rg.array[k])
+//@ ensures  arrSameOrFresh(rg)
 //@ modifies rg.array, rg.top, rg.array[*]
 
 //@ func (*registry).IsFull [C01 C12]
@@ -87,6 +93,7 @@ package lua
 //@ ensures  Inv_reg(rg) && rg.top == regm + n
 //@ ensures  forall k int :: regm <= k && k < regm+n ==> rg.array[k] == LNil
 //@ ensures  forall k int :: 0 <= k && k < regm && k < old(rg.top) ==> rg.array[k] == old(rg.array[k])
+//@ ensures  arrSameOrFresh(rg)
 //@ modifies rg.array, rg.top, rg.array[*]
 //@ loop 1 invariant 0 <= i && Inv_reg(rg) && rg.top == old(rg.top) && cap(rg.array) >= regm + n
 //@ loop 1 invariant forall k int :: regm <= k && k < regm+i ==> rg.array[k] == LNil
@@ -103,6 +110,7 @@ package lua
 //@ ensures  Inv_reg(rg) && rg.top == regv + n
 //@ ensures  forall k int :: regv <= k && k < regv+n ==> rg.array[k] == ite(start+k-regv < 0 || start+k-regv >= old(lim0(rg, limit)), LNil, old(rg.array[start+k-regv]))
 //@ ensures  forall k int :: 0 <= k && k < regv && k < old(rg.top) ==> rg.array[k] == old(rg.array[k])
+//@ ensures  arrSameOrFresh(rg)
 //@ modifies rg.array, rg.top, rg.array[*]
 //@ loop 1 invariant 0 <= i && Inv_reg(rg) && rg.top == old(rg.top) && cap(rg.array) >= regv + n && limit == old(lim0(rg, limit))
 //@ loop 1 invariant forall k int :: regv <= k && k < regv+i ==> rg.array[k] == ite(start+k-regv < 0 || start+k-regv >= limit, LNil, old(rg.array[start+k-regv]))
@@ -263,3 +271,104 @@ package lua
 //@ func (*autoGrowingCallFrameStack).IsEmpty
 //@ implements callFrameStack.IsEmpty
 //@ modifies nothing
+
+// ---------------------------------------------------------------------------
+// Go API value stack (state.go): list = reg[base(ls) .. top(ls))
+// ---------------------------------------------------------------------------
+
+//@ trusted (*LState).RaiseError
+//@ assume LState.Panic never returns: RaiseError, raiseError, Error, ArgError and TypeError end in ls.Panic(ls)
+//@ noreturn
+
+//@ define base(ls *LState) int = ite(ls.currentFrame != nil, ls.currentFrame.LocalBase, 0)
+//@ define top(ls *LState) int = ls.reg.top
+//@ define Inv_api(ls *LState) bool = ls != nil && ls.reg != nil && Inv_reg(ls.reg) && 0 <= base(ls) && base(ls) <= ls.reg.top
+
+//@ func (*LState).indexToReg [C10]
+//@ requires Inv_api(ls)
+//@ noraise
+//@ ensures  result == ite(idx > 0, base(ls)+idx-1, ite(idx == 0, -1, ite(top(ls)+idx < base(ls), -1, top(ls)+idx)))
+//@ modifies nothing
+
+//@ func (*LState).GetTop [C10]
+//@ requires Inv_api(ls)
+//@ noraise
+//@ ensures  result == top(ls) - base(ls)
+//@ modifies nothing
+
+//@ func (*LState).Get [C10]
+//@ requires Inv_api(ls) && idx >= GlobalsIndex && ls.G != nil && (ls.currentFrame != nil ==> ls.currentFrame.Fn != nil)
+//@ noraise
+//@ ensures  idx > 0 ==> result == ite(base(ls)+idx-1 < top(ls), ls.reg.array[base(ls)+idx-1], LNil)
+//@ ensures  idx == 0 ==> result == LNil
+//@ ensures  RegistryIndex < idx && idx < 0 ==> result == ite(top(ls)+idx < base(ls), LNil, ls.reg.array[top(ls)+idx])
+//@ ensures  idx == RegistryIndex ==> result == mkTab(ls.G.Registry)
+//@ ensures  idx == GlobalsIndex ==> result == mkTab(ls.G.Global)
+//@ ensures  idx == EnvironIndex ==> result == ite(ls.currentFrame == nil, mkTab(ls.Env), mkTab(ls.currentFrame.Fn.Env))
+//@ modifies nothing
+
+//@ func (*LState).Push [C10]
+//@ requires Inv_api(ls)
+//@ raises when overflow(ls.reg, top(ls) + 1)
+//@ ensures  Inv_api(ls) && top(ls) == old(top(ls)) + 1 && ls.reg.array[old(top(ls))] == value && base(ls) == old(base(ls))
+//@ ensures  forall k int :: 0 <= k && k < old(top(ls)) ==> ls.reg.array[k] == old(ls.reg.array[k])
+//@ modifies ls.reg.array, ls.reg.top, ls.reg.array[*]
+
+//@ func (*LState).Pop [C10]
+//@ requires Inv_api(ls)
+//@ raises when n > top(ls) - base(ls)
+//@ ensures  Inv_api(ls) && top(ls) == old(top(ls)) - ite(n > 0, n, 0) && base(ls) == old(base(ls))
+//@ ensures  forall k int :: 0 <= k && k < top(ls) ==> ls.reg.array[k] == old(ls.reg.array[k])
+//@ modifies ls.reg.top, ls.reg.array[*]
+//@ loop 1 invariant 0 <= i && Inv_api(ls) && top(ls) == old(top(ls)) - i && ls.reg == old(ls.reg) && arrid(ls.reg.array) == old(arrid(ls.reg.array))
+//@ loop 1 invariant forall k int :: 0 <= k && k < top(ls) ==> ls.reg.array[k] == old(ls.reg.array[k])
+
+//@ func (*LState).SetTop [C10]
+//@ requires Inv_api(ls)
+//@ raises when overflow(ls.reg, ite(idx > 0, base(ls)+idx, ite(idx == 0, 0, ite(top(ls)+idx < base(ls), 0, top(ls)+idx+1))))
+//@ ensures  Inv_api(ls) && base(ls) == old(base(ls))
+//@ ensures  top(ls) == old(ite(idx > 0, base(ls)+idx, ite(idx == 0 || top(ls)+idx+1 < base(ls), base(ls), top(ls)+idx+1)))
+//@ ensures  forall k int :: 0 <= k && k < top(ls) && k < old(top(ls)) ==> ls.reg.array[k] == old(ls.reg.array[k])
+//@ ensures  forall k int :: old(top(ls)) <= k && k < top(ls) ==> ls.reg.array[k] == LNil
+//@ modifies ls.reg.array, ls.reg.top, ls.reg.array[*]
+
+//@ define i2r(ls *LState, idx int) int = ite(idx > 0, base(ls)+idx-1, ite(idx == 0, -1, ite(top(ls)+idx < base(ls), -1, top(ls)+idx)))
+
+//@ func (*LState).Insert [C10]
+//@ requires Inv_api(ls)
+//@ raises when overflow(ls.reg, ite(i2r(ls, index) >= top(ls), i2r(ls, index) + 1, top(ls) + 1))
+//@ ensures  Inv_api(ls) && base(ls) == old(base(ls))
+//@ ensures  old(i2r(ls, index) >= top(ls)) ==> top(ls) == old(i2r(ls, index)) + 1 && ls.reg.array[old(i2r(ls, index))] == value
+//@ ensures  old(i2r(ls, index) >= top(ls)) ==> forall k int :: 0 <= k && k < old(top(ls)) ==> ls.reg.array[k] == old(ls.reg.array[k])
+//@ ensures  old(i2r(ls, index) < top(ls)) ==> top(ls) == old(top(ls)) + 1 && ls.reg.array[old(max(i2r(ls, index), base(ls)))] == value
+//@ ensures  old(i2r(ls, index) < top(ls)) ==> forall k int :: old(max(i2r(ls, index), base(ls))) < k && k <= old(top(ls)) ==> ls.reg.array[k] == old(ls.reg.array[k-1])
+//@ ensures  old(i2r(ls, index) < top(ls)) ==> forall k int :: 0 <= k && k < old(max(i2r(ls, index), base(ls))) ==> ls.reg.array[k] == old(ls.reg.array[k])
+//@ modifies ls.reg.array, ls.reg.top, ls.reg.array[*]
+//@ loop 1 invariant Inv_api(ls) && ls.reg == old(ls.reg) && reg == old(max(i2r(ls, index), base(ls))) && reg <= old(top(ls)) && reg - 1 <= top && top <= old(top(ls)) - 1
+//@ loop 1 invariant ls.reg.top == ite(top < old(top(ls)) - 1, old(top(ls)) + 1, old(top(ls)))
+//@ loop 1 invariant arrid(ls.reg.array) == old(arrid(ls.reg.array)) || fresh(ls.reg.array)
+//@ loop 1 invariant top == old(top(ls)) - 1 ==> cap(ls.reg.array) == old(cap(ls.reg.array))
+//@ loop 1 invariant forall k int :: top + 1 < k && k <= old(top(ls)) ==> ls.reg.array[k] == old(ls.reg.array[k-1])
+//@ loop 1 invariant forall k int :: 0 <= k && k <= top ==> ls.reg.array[k] == old(ls.reg.array[k])
+
+//@ func (*LState).Remove [C10]
+//@ requires Inv_api(ls)
+//@ noraise
+//@ ensures  Inv_api(ls) && base(ls) == old(base(ls))
+//@ ensures  old(i2r(ls, index) >= top(ls) || i2r(ls, index) < base(ls)) ==> top(ls) == old(top(ls)) && forall k int :: 0 <= k && k < top(ls) ==> ls.reg.array[k] == old(ls.reg.array[k])
+//@ ensures  old(i2r(ls, index) < top(ls) && i2r(ls, index) >= base(ls)) ==> top(ls) == old(top(ls)) - 1
+//@ ensures  old(i2r(ls, index) < top(ls) && i2r(ls, index) >= base(ls)) ==> forall k int :: 0 <= k && k < old(i2r(ls, index)) ==> ls.reg.array[k] == old(ls.reg.array[k])
+//@ ensures  old(i2r(ls, index) < top(ls) && i2r(ls, index) >= base(ls)) ==> forall k int :: old(i2r(ls, index)) <= k && k < top(ls) ==> ls.reg.array[k] == old(ls.reg.array[k+1])
+//@ modifies ls.reg.array, ls.reg.top, ls.reg.array[*]
+//@ loop 1 invariant Inv_api(ls) && ls.reg == old(ls.reg) && reg == old(i2r(ls, index)) && top == old(top(ls)) && ls.reg.top == top && base(ls) <= reg && reg < top - 1 && reg <= i
+//@ loop 1 invariant arrid(ls.reg.array) == old(arrid(ls.reg.array)) || fresh(ls.reg.array)
+//@ loop 1 invariant forall k int :: 0 <= k && k < reg ==> ls.reg.array[k] == old(ls.reg.array[k])
+//@ loop 1 invariant forall k int :: reg <= k && k < i ==> ls.reg.array[k] == old(ls.reg.array[k+1])
+//@ loop 1 invariant forall k int :: i <= k && k < top ==> ls.reg.array[k] == old(ls.reg.array[k])
+
+//@ func (*LState).Replace [C10]
+//@ requires Inv_api(ls) && idx > RegistryIndex
+//@ noraise
+//@ ensures  Inv_api(ls) && base(ls) == old(base(ls)) && top(ls) == old(top(ls))
+//@ ensures  forall k int :: 0 <= k && k < top(ls) ==> ls.reg.array[k] == ite(k == old(i2r(ls, idx)) && k >= base(ls), value, old(ls.reg.array[k]))
+//@ modifies ls.reg.array, ls.reg.top, ls.reg.array[*]
